@@ -1,9 +1,11 @@
 """property id -> (spec, harness group)"""
-from . import props_alg, props_alias
+from . import props_alg, props_alias, props_lin
 
 SPECS = {}
 for pid, spec in props_alg.SPECS.items():
     SPECS[pid] = (spec, props_alg.GROUP)
 for pid, spec in props_alias.SPECS.items():
     SPECS[pid] = (spec, props_alias.GROUP)
+for pid, spec in props_lin.SPECS.items():
+    SPECS[pid] = (spec, props_lin.GROUP)
 NOT_CLAIMED = {}
